@@ -667,3 +667,45 @@ def bound_args(call, fdef):
         if k.arg:
             out[k.arg] = norm(k.value)
     return out
+
+
+def pmatch(patterns, texts, fn_node=None):
+    """Match statement/expression patterns with metavariables against normalised texts.
+    `patterns`: list of strings in which `$name` stands for one local variable (the same everywhere);
+    `texts`: iterable of normalised source texts.  Returns the binding {name: identifier} under which
+    EVERY pattern equals some text, or None.  Locals the code hoisted into single-definition names are
+    tried both as written and resolved (when `fn_node` is given, texts may be pre-resolved by the
+    caller)."""
+    import re as _re
+    import itertools
+    texts = list(dict.fromkeys(texts))
+    metas = sorted({m for p_ in patterns for m in _re.findall(r"\$(\w+)", p_)})
+
+    def rx(p_, bound):
+        out, pos = "", 0
+        for m in _re.finditer(r"\$(\w+)", p_):
+            out += _re.escape(p_[pos:m.start()])
+            nm = m.group(1)
+            if nm in bound:
+                out += _re.escape(bound[nm])
+            else:
+                out += r"(?P<%s>[A-Za-z_]\w*)" % nm if ("(?P<%s>" % nm) not in out else "(?P=%s)" % nm
+            pos = m.end()
+        return "^" + out + _re.escape(p_[pos:]) + "$"
+
+    def solve(i, bound):
+        if i == len(patterns):
+            return bound
+        r = _re.compile(rx(patterns[i], bound))
+        for t in texts:
+            m = r.match(t)
+            if m:
+                b2 = dict(bound)
+                b2.update({k: v for k, v in m.groupdict().items() if v is not None})
+                if len(set(b2.values())) != len(b2):
+                    continue        # two metavariables never name the same local
+                res = solve(i + 1, b2)
+                if res is not None:
+                    return res
+        return None
+    return solve(0, {})
